@@ -1,4 +1,5 @@
 """C05 — crash never damages untouched flushed regions / layout: ordering clauses (DESIGN §4 C05)."""
+import re
 from order import M, names
 from program import op_place
 from common import AnchorMissing
@@ -155,6 +156,56 @@ def layout_map_writers(ctx, chk, rid):
                    not offenders and n >= 1, detail={"offenders": offenders}, key="%s|field-writers|%s" % (rid, field),
                    msg="the layout's maps are changed only through their designated functions (a freed extent must go "
                        "through pending_holes and promotion)")
+
+
+BTREE_Q = re.compile(r"alloc::collections::btree::map::BTreeMap::<K, V, A>::(\w+)$")
+_LEAST = {"first_key_value", "first_entry", "pop_first"}
+_COVERS_GREATEST = {"last_key_value", "last_entry", "iter", "keys", "values", "into_iter", "range", "iter_mut",
+                    "values_mut"}
+
+
+def len_takes_greatest(ctx, chk, rid):
+    """shared by C05 / C10 / C12: `Layout::len` is where the next end-of-file placement goes, so for each of the
+    four extent maps it must look at the entry with the GREATEST start (or at all of them), never only at the least.
+    Queries are collected over Layout::len and the Layout helpers / closures it reaches and attributed to a map by
+    the backward slice of the receiver."""
+    O, P = ctx.O, ctx.P
+    ln = "rawdb::layout::Layout::len"
+    O.body(ln)
+    scope = {ln} | {g for g in O.reach(ln) if g.startswith("rawdb::layout::Layout::")}
+    for g in list(scope):
+        for K in P.children.get(g, []):
+            scope.add(K)
+    fields = ("start_to_region", "start_to_hole", "pending_holes", "start_to_reserved")
+    q = {f: set() for f in fields}
+    nq = 0
+    for g in sorted(scope):
+        G = P.bodies.get(g)
+        if G is None:
+            continue
+        for b, t in G.calls():
+            m = None
+            for n in names(t):
+                mm = BTREE_Q.search(n)
+                if mm:
+                    m = mm.group(1)
+            if m is None or not t["args"]:
+                continue
+            fl = O.slice_back(G, t["args"][0])["fields"]
+            for f in fields:
+                if f in fl:
+                    q[f].add(m)
+                    nq += 1
+    if nq < 3:
+        raise AnchorMissing("Layout::len: expected >= 3 BTreeMap queries on the extent maps in its reach, found %d" % nq)
+    for f in fields:
+        if not q[f]:
+            continue        # presence is B05.7 / A10.9's clause ("accounts for")
+        ok = bool(q[f] & _COVERS_GREATEST) and not (q[f] & _LEAST)
+        chk.oblige("%s Layout::len takes the greatest entry of %s %s" % (rid, f, sorted(q[f])), ok,
+                   key="%s|len|not-greatest|%s" % (rid, f),
+                   msg="the end of the allocated area is the end of the LAST extent of every map; taking the first "
+                       "entry places the next region on top of an occupied (or freed-but-not-durable) extent")
 
 
 def occupied_maps_consulted(ctx, chk, rid, fields):
@@ -314,6 +365,7 @@ def run(ctx, chk):
                    key="B05.3c|reach|%s" % f, msg="a freed extent must not become reusable before the next flush")
     layout_map_writers(ctx, chk, "B05.3d")
     pending_holes_occupied(ctx, chk, "B05.7")
+    len_takes_greatest(ctx, chk, "B05.10")
     # B05.8 open never fails because of what a slot contains (a crash may leave any mix of old and new slot pages,
     # e.g. two slots with the same name after remove + rename): once the slot loop of Regions::fill has started, no
     # error exit is reachable
